@@ -32,6 +32,12 @@ def base_doc(rng):
         lexs[0] = a
     if rng.random() < 0.4:
         lexs.append(g.lexicon('b', '1.1+x', v))
+        if rng.random() < 0.5:
+            # a second version of the same lexicon id in the same file (its entities carry their own ids): lexicons are
+            # identified by id *and* version everywhere in the library
+            b2 = g.lexicon('b2', '2', v)
+            b2['id'] = 'b'
+            lexs.append(b2)
     return docs.resource(lexs, v), v
 
 
